@@ -22,7 +22,7 @@ TOPIC = "T1"
 BASE = {
     "PeerSeq": "<- Seq3", "ProtoOf": "<- ProtoMixed", "Router": '= "gossipsub"', "D": "= 2", "Dlo": "= 1",
     "FanoutTTL": "= 2", "IDWTTL": "= 2", "Thr": "<- MCThr", "ScoreVals": "<- MCScores3", "FloodPublish": "= FALSE",
-    "RsSize": "= 10", "MaxMsgs": "= 1", "MaxHist": "= 1", "MaxDirect": "= 1", "MaxUnwanted": "= 1",
+    "RsSize": "= 10", "MaxMsgs": "= 1", "MaxHist": "= 1", "MaxDirect": "= 1", "MaxUnwanted": "= 1", "IdwAhead": "= 1", "IdwPerHb": "= 2",
     # the model follows the REPAIRED code (/repo 5ab6a16 = D21, 74d77d0 = D22): no early return when topics[t] is absent,
     # fanout members re-checked against topics[t], nothing tolerated; the as-found variants are MUST-FAIL configurations
     # ... and publishMessageBatch must skip local-only messages like publishMessage does (BatchLocalSkipped; as found it does not)
@@ -119,6 +119,10 @@ def gen_families(ctx):
         ("oneshot4-flood", "gossipsub", True, dict(g4, Alphabet="<- AlphaMsg", FloodPublish="= TRUE"), "bfs", q(120, 1500)),
         # batch publishing: every prepared state + one batch of three messages, each local-only or not (replayed by drivers/c06)
         ("batch4", "gossipsub", False, dict(g4, Alphabet="<- AlphaBatch", MaxMsgs="= 3", MaxDyn="= 3"), "bfs", q(150, 1500)),
+        # IDONTWANT life cycle: one member sends up to three successive IDONTWANT RPCs (other / same ids, across a heartbeat,
+        # beyond the per-heartbeat budget), then the announced messages arrive from another peer or are published (mesh and fanout)
+        ("idw3", "gossipsub", False, dict(PrepTp="<- PrepTpFull", Alphabet="<- AlphaIdw", MaxOther="= 3", MaxMsgs="= 2", MaxDyn="= 5",
+                                          IdwAhead="= 2"), "bfs", q(300, 2500)),
         # 3 peers: every prepared state + any one stimulus + one message
         ("prestep3", "gossipsub", False, dict({"MaxMsgs": "= 1", "MaxOther": "= 1", "MaxDyn": "= 2", "Alphabet": "<- AlphaAll"},
                                               **({} if T else {"PrepTp": "<- PrepTpBig"})), "bfs", q(400, 3000)),
@@ -132,7 +136,7 @@ def gen_families(ctx):
                                                 PrepJoined="<- OnlyTrue", MaxOther=q("= 0", "= 1"), MaxMsgs="= 1", MaxDyn=q("= 1", "= 2")), "bfs", q(100, 1200)),
         # long seeded random histories from the empty state
         ("sim4", "gossipsub", False, dict(g4, Prep="= FALSE", Alphabet="<- AlphaSim", MaxOther="= 100", MaxMsgs="= 5", MaxDyn="= 16", MaxDirect="= 1",
-                                          MaxUnwanted="= 2"), "sim", q(150, 2000)),
+                                          MaxUnwanted="= 2", IdwAhead="= 3"), "sim", q(150, 2000)),
         ("sim4-flood", "gossipsub", True, dict(g4, Prep="= FALSE", MaxOther="= 100", MaxMsgs="= 5", MaxDyn="= 14",
                                                FloodPublish="= TRUE"), "sim", q(50, 600)),
     ]
@@ -253,7 +257,7 @@ def to_scenario(acts, router, flood, rng=None):
     fwd = {a["v"]: a for a in acts if a["a"] == "msg"}
     made = set()
     prev_batch = False
-    for a in acts:
+    for ai, a in enumerate(acts):
         k, p = a["a"], a["p"]
         in_batch, prev_batch = prev_batch, (k == "publish" and a["q"] == "batch")   # in_batch: the previous action was a batch member
         if k == "peer":
@@ -281,7 +285,12 @@ def to_scenario(acts, router, flood, rng=None):
                     pre["author"] = f["q"]
                 out.append(pre)
                 made.add(name)
-            out.append({"a": "idontwant", "p": p, "ids": [name]})
+            if f is None and any(b["a"] == "publish" and b["v"] == a["v"] for b in acts[ai + 1:]):
+                # a message the node itself will publish: the driver predicts its id (the k-th publication from now)
+                nxt = sum(1 for b in acts[ai + 1:] if b["a"] == "publish" and b["v"] <= a["v"])
+                out.append({"a": "idontwant", "p": p, "ids": [name], "own": True, "next": [nxt]})
+            else:
+                out.append({"a": "idontwant", "p": p, "ids": [name]})
         elif k == "down":
             out.append({"a": "down", "p": p})
         elif k == "subscribe":
@@ -463,7 +472,7 @@ def replay(ctx, name, scenarios):
     nproc = 1 if len(scenarios) < 300 else (4 if ctx.thorough else 3)
     parts = [scenarios[i::nproc] for i in range(nproc)]
     # batch publishing, message field variants and the lax policy are not in the common alphabet: the C06 driver (same interpreter)
-    drv = DRV_C06 if any("sign" in s["cfg"] or any(a["a"] == "batch" or any(k in a for k in VARIANT_KEYS) for a in s["acts"])
+    drv = DRV_C06 if any("sign" in s["cfg"] or any(a["a"] == "batch" or a.get("own") or any(k in a for k in VARIANT_KEYS) for a in s["acts"])
                          for s in scenarios) else DRV_ROUTER
 
     def one(k):
@@ -580,7 +589,7 @@ def scenario_of(trace, upto):
 
 REQUIRED = [  # DESIGN C06 obligations, each on at least one validated step of the real code
     "fwd-src-ne-author", "author-is-mesh-peer", "source-is-mesh-peer", "floodsub-peer-at-threshold", "floodsub-peer-below-threshold",
-    "direct-not-in-mesh", "mesh-peer-idontwant", "floodsub-or-direct-peer-idontwant", "fanout-select-needs-peer-at-threshold", "non-mesh-gossipsub-peer-skipped", "fanout-select", "fanout-select-more-than-D",
+    "direct-not-in-mesh", "mesh-peer-idontwant", "idontwant-in-earlier-rpc", "floodsub-or-direct-peer-idontwant", "fanout-select-needs-peer-at-threshold", "non-mesh-gossipsub-peer-skipped", "fanout-select", "fanout-select-more-than-D",
     "fanout-reuse", "fanout-reuse-with-alternatives", "fanout-reuse-after-member-removed", "fanout-member-removed", "fanout-expiry",
     "fanout-kept-past-first-ttl", "fanout-member-at-threshold", "fanout-select-skips-direct", "flood-publish", "flood-publish-below-threshold", "flood-publish-direct-below-threshold", "direct-below-threshold", "forward-under-flood-publish", "local-only-with-topic-peers", "batch-publish", "batch-local-only-with-topic-peers",
     # P_C06_Copy: forwarded copies of messages with every optional field combination were compared with what was received
